@@ -250,6 +250,41 @@ def edge_families():
                 body = (head + "\n" + t).replace("\n", nl)
                 out.append("---" + nl + body + nl + "---" + nl + "step @a{1}")
                 out.append(nl + "---" + nl + body + nl + "---" + nl)
+    # recipe references whose name has no final path component (consumers that derive a display name from it)
+    for nm in ["..", ".", "/", "a/..", "../..", "../", "./", "a/.", "//", "./..", "名/..", ".. ", "a/b/.."]:
+        for tail in ["{}", "{1%kg}", "{}(n)", "|x{}"]:
+            out.append("@@%s%s" % (nm, tail))
+            out.append("Mix @@%s%s well\n\n@@%s%s" % (nm, tail, nm, tail))
+    # components directly on both sides of a line end (a text made of nothing but the soft break)
+    for nl in ("\n", "\r\n"):
+        for a in ("@flour{200%g}", "@a", "#pot{}", "~{5%min}", "@salt{}(n)"):
+            for b in ("@water{100%ml}", "#pan", "~t{1%h}", "@b{}"):
+                out.append("Mix " + a + nl + b)
+                out.append(a + nl + b + nl + a)
+    # tabs before diagnostics next to multi-byte characters (report rendering expands tabs)
+    for t in ["\t~é{5}", "\t\t@é{1%}", "a\tb ~名(x)", "\t= é =\n\t#é{1%kg}", "\t>> é:\n\t@&名{}", "x\t\t@é{1/0}",
+              "---\n\ta: [é\n---\n", "\t@a{1}\n\n\t@&a{2}(é)", "\t\t\t~{é%min}"]:
+        out.append(t)
+        out.append(t.replace("\n", "\r\n"))
+    # a text block whose marker is followed by a non-ASCII blank; continuation lines starting with blank + comment
+    for sp in ["\u00a0", "\u3000", "\u2009", "\u202f", " \u00a0", "\u00a0\u00a0", "\t\u00a0"]:
+        for body in ["Pour 4 personnes", "é", "名 x\ny", "x [- c -] y"]:
+            out.append(">" + sp + body)
+            out.append("a\n\n>" + sp + body + "\n\nb")
+    for lead in [" [- ed. -] for 3 days in a tin", "\t[- c -] é2", " [- a -] [- b -] x1", "[- c -]x", " -- c\nz9"]:
+        out.append("> keeps" + "\n" + lead)
+        out.append("> keeps" + "\r\n" + lead + "\r\n\r\nnext step")
+    # section names and metadata keys / values with comments before, between and after the words
+    for name in ["[- part 2 -] Dough", " [- optional -] Icing", "[- a -][- b -] X1", "Dough [- c -]", "Dough [- c -] two",
+                 "[- only -]", " -- c", "é [- c -] 名", "[- é -] 名"]:
+        for form in ["== %s ==", "= %s", "=%s=", "==%s"]:
+            out.append(form % name)
+            out.append("step\n\n" + form % name + "\n\nafter @a{}")
+    for key in ["title", "[- which key? -]", "[- k -] ", "k [- c -] 2", "[- a -] k", "é"]:
+        for val in ["Pasta [- v2 -] al forno", "[- from -] grandma", "1 h [- prep -] 30 min", "[- ask grandma -]", "-- ask grandma",
+                    "x [- a -] [- b -] y", "a [- c -]", "[- c -][- d -]", "é [- 名 -] ñ9"]:
+            out.append(">> %s: %s" % (key, val))
+            out.append(">>%s:%s\nstep @a{}" % (key, val))
     return out
 
 
